@@ -9,7 +9,7 @@ PARTIAL: the full statement `C08_full` is false on the unchanged tree (finding F
 Counterexamples/C08.lean): a pause request that lands in the exit `sleep(0)` of `_run` sets
 `_interrupted` although the plan has completed and the engine goes idle.
 -/
-import BlueskyVerif.Lemmas.C08
+import BlueskyVerif.Lemmas.C08HistSched
 
 namespace BlueskyVerif.C08
 open BlueskyVerif.Engine
@@ -59,6 +59,58 @@ theorem C08_interrupted_partial_terminate (maxArr : Nat) (sc : Script) (fuel : N
     (hb : (schedule maxArr sc fuel (startTerminate s kind)).blockingEvent = true) :
     Returned (schedule maxArr sc fuel (startTerminate s kind)) :=
   (schedule_res maxArr sc fuel _ (startTerminate_res s kind hs hp)).returned hb
+
+/-- HISTORY (the true partial statement).  For every plan, device specification, environment script,
+    arrival bound and fuel: if `RE(plan)` ends with `_interrupted` set and the engine idle -- i.e. it raises
+    RunEngineInterrupted without being paused -- then the call's own transition / refusal logs show why:
+    * a transition into aborting, stopping or halting happened during the call (an abort / stop / halt
+      request was accepted, or a pause / suspension hit a non-resumable section: FailedPause), or
+    * the transition pausing -> idle happened: the engine went idle while a pause was pending -- the
+      pause request landed after the plan's last message (open finding F4), or
+    * some request was refused during the call (the request coroutines set `_interrupted` before the state
+      assignment that raises TransitionError -- open finding "refused stop"). -/
+theorem C08_interrupted_idle_explained (maxArr : Nat) (sc : Script) (fuel : Nat) (s0 : EState) (plan : Gen)
+    (h0 : s0.state = .idle)
+    (hi : (schedule maxArr sc fuel (startCall s0 plan)).interrupted = true)
+    (hs : (schedule maxArr sc fuel (startCall s0 plan)).state = .idle) :
+    TermSeen s0.trans (schedule maxArr sc fuel (startCall s0 plan)) ∨
+    PISeen s0.trans (schedule maxArr sc fuel (startCall s0 plan)) ∨
+    Refd s0.refused.length (schedule maxArr sc fuel (startCall s0 plan)) := by
+  have hj := schedule_J maxArr sc fuel _ (startCall_J s0 plan h0)
+  rcases hj.2.2.2 hi with he | hp | ⟨hp, _⟩
+  · exact he
+  · rw [hs] at hp; cases hp
+  · rw [hs] at hp; cases hp
+
+/-- C08 with the two forced hypotheses that exclude the open findings: if the engine never went
+    pausing -> idle during the call (no pause request after the plan's last message) and no request was
+    refused, then RunEngineInterrupted with the engine idle means that the plan was terminated
+    (a transition into aborting / stopping / halting happened) -- and by `C08_interrupted_partial` every
+    run is closed. -/
+theorem C08_partial (maxArr : Nat) (sc : Script) (fuel : Nat) (s0 : EState) (plan : Gen) (h0 : s0.state = .idle)
+    (hi : (schedule maxArr sc fuel (startCall s0 plan)).interrupted = true)
+    (hs : (schedule maxArr sc fuel (startCall s0 plan)).state = .idle)
+    (hF4 : ¬ PISeen s0.trans (schedule maxArr sc fuel (startCall s0 plan)))
+    (hRef : (schedule maxArr sc fuel (startCall s0 plan)).refused.length ≤ s0.refused.length) :
+    TermSeen s0.trans (schedule maxArr sc fuel (startCall s0 plan)) := by
+  rcases C08_interrupted_idle_explained maxArr sc fuel s0 plan h0 hi hs with h | h | h
+  · exact h
+  · exact absurd h hF4
+  · exact absurd h (Nat.not_lt.mpr hRef)
+
+/-- the same for `RE.resume()` -/
+theorem C08_interrupted_idle_explained_resume (maxArr : Nat) (sc : Script) (fuel : Nat) (s : EState)
+    (hst : s.state = .paused) (hp : s.pc = .pausedWait)
+    (hi : (schedule maxArr sc fuel (startResume s)).interrupted = true)
+    (hs : (schedule maxArr sc fuel (startResume s)).state = .idle) :
+    TermSeen s.trans (schedule maxArr sc fuel (startResume s)) ∨
+    PISeen s.trans (schedule maxArr sc fuel (startResume s)) ∨
+    Refd s.refused.length (schedule maxArr sc fuel (startResume s)) := by
+  have hj := schedule_J maxArr sc fuel _ (startResume_J s hst hp)
+  rcases hj.2.2.2 hi with he | hp' | ⟨hp', _⟩
+  · exact he
+  · rw [hs] at hp'; cases hp'
+  · rw [hs] at hp'; cases hp'
 
 /-- Who sets `_interrupted` (1): an environment action sets it only if it is a non-deferred pause
     request, an abort/stop/halt request (accepted OR refused -- the request coroutines store the flag before
